@@ -12,6 +12,8 @@ the proofs are reported as obligations of kind 'library-lemma'):
   L2  CNT(A[i:=v], k, t) == CNT(A, k, t) + ((v==k) - (A[i]==k) if 0 <= i < t else 0)
   L3  CNT(A, k, t) >= 0
   L4  0 <= i < t  ->  CNT(A, A[i], t) >= 1
+  L5  CNT(A, k, t) >= 1  ->  0 <= WIT(A,k,t) < t  and  A[WIT(A,k,t)] == k
+      where WIT(A,k,t) = t-1 if A[t-1] == k else WIT(A,k,t-1)   (a witness position)
 """
 
 import time
@@ -31,6 +33,7 @@ def theory(engine):
         return engine.specfns["colsum!SUM"][0], engine.specfns["colsum!CNT"][0]
     SUM = z3.Function("colsum!SUM", ArrS, IntS, IntS)
     CNT = z3.Function("colsum!CNT", ArrS, IntS, IntS, IntS)
+    WIT = z3.Function("colsum!WIT", ArrS, IntS, IntS, IntS)
     engine.specfns["colsum!SUM"] = (SUM, ["A", "t"], None, None)
     engine.specfns["colsum!CNT"] = (CNT, ["A", "k", "t"], None, None)
     A = z3.Const("cs!A", ArrS)
@@ -55,6 +58,12 @@ def theory(engine):
     def L4(tt):
         return z3.Implies(z3.And(0 <= i, i < tt), CNT(A, A[i], tt) >= 1)
 
+    def dwit(a, kk, tt):
+        return WIT(a, kk, tt) == z3.If(a[tt - 1] == kk, tt - 1, WIT(a, kk, tt - 1))
+
+    def L5(tt):
+        return z3.Implies(CNT(A, k, tt) >= 1, z3.And(0 <= WIT(A, k, tt), WIT(A, k, tt) < tt, A[WIT(A, k, tt)] == k))
+
     proofs = []
 
     def prove(name, hyps, goal):
@@ -78,6 +87,8 @@ def theory(engine):
     kk = A[i]
     prove("L4 base", [t <= 0], L4(t))
     prove("L4 step", [t >= 0, L4(t), z3.substitute(L3(t), (k, kk)), dcnt(A, kk, t + 1)], L4(t + 1))
+    prove("L5 base", [t <= 0, dcnt(A, k, t)], L5(t))
+    prove("L5 step", [t >= 0, L5(t), dcnt(A, k, t + 1), dwit(A, k, t + 1)], L5(t + 1))
     engine.library_lemmas = getattr(engine, "library_lemmas", []) + proofs
     if all(p["status"] == "discharged" for p in proofs):
         ax = engine.axioms
@@ -87,6 +98,7 @@ def theory(engine):
         ax.append(z3.ForAll([A, i, v, k, t], L2(t), patterns=[CNT(S, k, t)]))
         ax.append(z3.ForAll([A, k, t], L3(t), patterns=[CNT(A, k, t)]))
         ax.append(z3.ForAll([A, i, t], L4(t), patterns=[z3.MultiPattern(CNT(A, A[i], t))]))
+        ax.append(z3.ForAll([A, k, t], L5(t), patterns=[CNT(A, k, t)]))
     return SUM, CNT
 
 
